@@ -210,6 +210,8 @@ def _table_body(R, W, limit, per_table, mix, namepat, nonecol):
                 cv = ['s%d_%d' % (j, i) for i in range(R)]
             elif mix == 2 and j % 2 == 0:
                 cv = [float(i) + 0.5 for i in range(R)]
+            elif mix == 3 and j == W // 2:
+                cv = ['m%d' % i for i in range(R)]          # only the middle column differs (hidden when the table is wide)
             else:
                 cv = [(j + 1) * 100 + i for i in range(R)]
             if nonecol is not None and j == nonecol % max(W, 1) and R:
@@ -235,7 +237,7 @@ def _table_body(R, W, limit, per_table, mix, namepat, nonecol):
 
 def h_table(R: int, W: int, per_table: bool, mix: int, namepat: int, nonecol: int) -> bool:
     """
-    pre: 0 <= R <= H.cfg('limit') + 3 and H.cfg('wlo') <= W <= H.cfg('whi') and 0 <= mix <= 2 and 0 <= namepat <= 2 and -1 <= nonecol <= 2
+    pre: 0 <= R <= H.cfg('limit') + 3 and H.cfg('wlo') <= W <= H.cfg('whi') and 0 <= mix <= 3 and 0 <= namepat <= 2 and -1 <= nonecol <= 2
     post: _
     """
     H.reset()
@@ -243,7 +245,7 @@ def h_table(R: int, W: int, per_table: bool, mix: int, namepat: int, nonecol: in
     lim = H.cfg('limit')
     nc = H.among([-1, 0, 1, 2], nonecol)
     if not H.concrete(_table_body, H.among(list(range(lim + 4)), R), H.among(list(range(H.cfg('wlo'), H.cfg('whi') + 1)), W), lim, True if per_table else False,
-                      H.among([0, 1, 2], mix), H.among([0, 1, 2], namepat), None if nc < 0 else nc): return False
+                      H.among([0, 1, 2, 3], mix), H.among([0, 1, 2], namepat), None if nc < 0 else nc): return False
     return H.ok()
 
 
